@@ -2,3 +2,6 @@ import Proofs.C01
 import Proofs.C05
 import Proofs.C08
 import Proofs.C09
+import Proofs.C18
+import Proofs.C18Filter
+import Proofs.C18Provenance
